@@ -86,7 +86,9 @@ def main(argv=None):
         if r.cmd: cmds.append(r.cmd)
         solver_ms += r.solver_ms
         if r.status == 'undecided':
-            undecided.append('%s: %s' % (name, r.reason)); continue
+            # the whole unit is outside the verifier's reach (e.g. a new static / struct field / import the overlay cannot place): every function of it
+            # that carries the property is decided by the bounded stand-in only - a failing input is still a violation, none is UNDECIDED
+            soft.append((name, 'unit ' + name, 'the generated unit was rejected before verification: ' + str(r.reason)[:200])); continue
         g = r.gen
         # obligations of this property: verification units (functions/lemmas) whose default labels include it
         for short, st in r.fn_stats.items():
